@@ -29,6 +29,7 @@ EP = "ipv8/messaging/anonymization/endpoint.py"
 TUN = "ipv8/messaging/anonymization/tunnel.py"
 TC = "ipv8/messaging/anonymization/community.py"
 COM = "ipv8/community.py"
+SVC = "ipv8_service.py"
 
 STATE_NAMES = {"CIRCUIT_STATE_READY": ".ready", "CIRCUIT_STATE_EXTENDING": ".extending", "CIRCUIT_STATE_CLOSING": ".closing"}
 CTYPE_NAMES = {"CIRCUIT_TYPE_DATA": ".data", "CIRCUIT_TYPE_IP_SEEDER": ".ipSeeder", "CIRCUIT_TYPE_RP_SEEDER": ".rpSeeder",
@@ -234,7 +235,7 @@ def translate() -> tuple[str, dict]:
     ep, tun, tc, com = _parse(EP), _parse(TUN), _parse(TC), _parse(COM)
     consts = _module_consts(tun)
     meta: dict = {}
-    out = ["/- GENERATED by tools/gen_c07.py from " + ", ".join([EP, TUN, TC, COM]) + " — do not edit -/",
+    out = ["/- GENERATED by tools/gen_c07.py from " + ", ".join([EP, TUN, TC, COM, SVC]) + " — do not edit -/",
            "import Ipv8.C07.Types", "", "namespace Ipv8.C07", ""]
 
     # --- constants of tunnel.py
@@ -338,6 +339,68 @@ def translate() -> tuple[str, dict]:
         raise TranslatorError("Community.__init__: self._prefix is no longer b'\\x00' + self.version + self.community_id")
     out += ["/-- Community._prefix = b\"\\x00\" + version + community_id -/",
             "def communityPrefixHead : Bytes := [0" + "".join(f", {b}" for b in ver) + "]", ""]
+
+    # --- Community.__init__: the opt-in is guarded by `settings.anonymize` and by the endpoint BEING a TunnelEndpoint
+    optin = [n for n in ast.walk(cinit) if isinstance(n, ast.Call) and isinstance(n.func, ast.Attribute)
+             and n.func.attr == "set_anonymity"]
+    if len(optin) != 1 or ast.unparse(optin[0]) != "self.endpoint.set_anonymity(self._prefix, True)":
+        raise TranslatorError("Community.__init__: expected exactly one `self.endpoint.set_anonymity(self._prefix, True)`, "
+                              f"found {[ast.unparse(c) for c in optin]}")
+    guards = []
+    for node in ast.walk(cinit):
+        if isinstance(node, ast.If) and any(optin[0] is sub for sub in ast.walk(node)):
+            # only conditions on the path to the call count (the call must be in the body, not the orelse)
+            if any(optin[0] is sub for st in node.body for sub in ast.walk(st)):
+                guards.append(ast.unparse(node.test))
+            else:
+                raise TranslatorError("Community.__init__: the opt-in sits in an else branch")
+    if sorted(guards) != sorted(["settings.anonymize", "isinstance(self.endpoint, TunnelEndpoint)"]):
+        raise TranslatorError(f"Community.__init__: the opt-in is guarded by {guards}, expected settings.anonymize and "
+                              "isinstance(self.endpoint, TunnelEndpoint)")
+    out += ["/-- Community.__init__ opts in only if `isinstance(self.endpoint, TunnelEndpoint)` (a decorator in front of the",
+            "    TunnelEndpoint is not one): translated guard -/",
+            "def optInNeedsTunnelEndpoint : Bool := true", ""]
+
+    # --- ipv8_service.IPv8.__init__: the order in which the endpoint is wrapped
+    svc = _parse(SVC)
+    ipv8c = next((n for n in ast.walk(svc) if isinstance(n, ast.ClassDef) and n.name == "IPv8"), None)
+    if ipv8c is None:
+        raise TranslatorError(f"class IPv8 not found in {SVC}")
+    sinit = _fn(ipv8c, "__init__")
+    sparams = [a.arg for a in sinit.args.args]
+    if "enable_statistics" not in sparams or "endpoint_override" not in sparams:
+        raise TranslatorError(f"IPv8.__init__: unexpected parameters {sparams}")
+    wraps = []
+    for st in _body(sinit):
+        for node in ([st] if isinstance(st, ast.If) else []):
+            for sub in ast.walk(node):
+                if isinstance(sub, ast.Assign) and len(sub.targets) == 1 and _is_self_attr(sub.targets[0], "endpoint") \
+                        and isinstance(sub.value, ast.Call) and isinstance(sub.value.func, ast.Name) \
+                        and len(sub.value.args) == 1 and _is_self_attr(sub.value.args[0], "endpoint"):
+                    if node.orelse or sub not in node.body:
+                        raise TranslatorError(f"IPv8.__init__: endpoint wrapped in an unsupported position: {ast.unparse(node)[:80]}")
+                    cond = ast.unparse(node.test)
+                    if cond == "enable_statistics":
+                        c = "stats"
+                    elif cond == "any((overlay.get('initialize', {}).get('anonymize') for overlay in configuration['overlays']))":
+                        c = "anyAnon"
+                    else:
+                        raise TranslatorError(f"IPv8.__init__: endpoint wrapped under unknown condition `{cond}`")
+                    w = {"StatisticsEndpoint": ".statistics", "TunnelEndpoint": ".tunnel"}.get(sub.value.func.id)
+                    if w is None:
+                        raise TranslatorError(f"IPv8.__init__: unknown endpoint decorator {sub.value.func.id}")
+                    wraps.append((c, w))
+    # any other assignment of a wrapped endpoint that the loop above did not see
+    n_wrap = sum(1 for sub in ast.walk(sinit) if isinstance(sub, ast.Assign) and len(sub.targets) == 1
+                 and _is_self_attr(sub.targets[0], "endpoint") and isinstance(sub.value, ast.Call)
+                 and any(_is_self_attr(a, "endpoint") for a in sub.value.args))
+    if n_wrap != len(wraps) or not wraps:
+        raise TranslatorError("IPv8.__init__: endpoint decorators applied in a shape the translator does not know")
+    out += ["/-- translated from ipv8_service.IPv8.__init__: the decorators put around the base endpoint, innermost first;",
+            "    the LAST one is what every overlay gets as `settings.endpoint` -/",
+            "def serviceWrappers (stats anyAnon : Bool) : List Wrapper :=",
+            "  " + " ++ ".join(f"(if {c} then [{w}] else [])" for c, w in wraps), ""]
+    meta["service_wrappers"] = wraps
 
     # --- Circuit.hops / hop / state / exit_flags
     circ = _cls(tun, "Circuit", TUN)
